@@ -26,7 +26,7 @@ ASSUMPTIONS = [
 CLASSES = ["BufferedJSONDict", "BufferedJSONList", "MemoryBufferedJSONDict", "MemoryBufferedJSONList"]
 PROGRAMS = {"quick": 12, "thorough": 240}
 SHARD_TIMEOUT = {"quick": 600, "thorough": 5400}
-BUDGET = {"quick": 30, "thorough": 1500}
+BUDGET = {"quick": 30, "thorough": 600}
 
 DICT_OPS = ["setitem", "delitem", "update", "setdefault"]
 LIST_OPS = ["append", "extend", "insert"]
